@@ -506,7 +506,7 @@ func unknownOf(path string, t types.Type, mix bool) AVal {
 			if mix {
 				return AVal{K: AInt, Bits: mixVec(w)}
 			}
-			return AVal{K: AInt, Bits: SourceVec(path, w)}
+			return AVal{K: AInt, Bits: regSource(path, w)}
 		}
 		if u.Info()&types.IsString != 0 {
 			return AVal{K: AStr, Path: path, Lo: 0, Len: -1}
@@ -627,6 +627,8 @@ type aframe struct {
 	pc    int
 	call  *ssa.Call // call instruction in the caller frame (nil for the entry frame)
 	names []string  // how the parameters are spelled in condition labels
+	// phiSrc: the operand each phi took when it was last evaluated on this path (copy on write)
+	phiSrc map[*ssa.Phi]ssa.Value
 }
 
 type astate struct {
@@ -883,6 +885,26 @@ func (ex *Exec) run(s *astate) ([]*astate, *AOutcome, error) {
 		switch x := in.(type) {
 		case *ssa.If:
 			cv := ex.val(s, fr, x.Cond)
+			cond := x.Cond
+			for i := 0; i < 4; i++ { // a condition that came through phis is the comparison it stands for on this path
+				ph, isPhi := cond.(*ssa.Phi)
+				if !isPhi || fr.phiSrc[ph] == nil {
+					break
+				}
+				cond = fr.phiSrc[ph]
+			}
+			if _, ok := cv.ConstVal(); !ok {
+				// a comparison computed earlier may be decided by what the path has learnt since
+				if bo, isB := cond.(*ssa.BinOp); isB {
+					cv = ex.binop(s, fr, bo)
+				} else if u, isU := cond.(*ssa.UnOp); isU && u.Op == token.NOT {
+					if bo, isB := u.X.(*ssa.BinOp); isB {
+						if k, ok := ex.binop(s, fr, bo).ConstVal(); ok {
+							cv = boolVal(k == 0)
+						}
+					}
+				}
+			}
 			if k, ok := cv.ConstVal(); ok {
 				ex.jump(fr, k == 0)
 				continue
@@ -899,7 +921,7 @@ func (ex *Exec) run(s *astate) ([]*astate, *AOutcome, error) {
 			t, f := s, s.clone()
 			t.conds = append(t.conds, label+"=T")
 			f.conds = append(f.conds, label+"=F")
-			ex.refine(t, f, fr, x.Cond)
+			ex.refine(t, f, fr, cond)
 			ex.jump(t.frames[len(t.frames)-1], false)
 			ex.jump(f.frames[len(f.frames)-1], true)
 			return []*astate{f, t}, nil, nil
@@ -1018,6 +1040,10 @@ func plainSource(b BitVec) (string, bool) {
 // refine records what a comparison of a whole source with a constant tells about the source
 // on the two sides of the branch.
 func (ex *Exec) refine(t, f *astate, fr *aframe, cond ssa.Value) {
+	if u, isU := cond.(*ssa.UnOp); isU && u.Op == token.NOT {
+		ex.refine(f, t, fr, u.X)
+		return
+	}
 	bo, ok := cond.(*ssa.BinOp)
 	if !ok {
 		return
@@ -1567,6 +1593,12 @@ func (ex *Exec) eval(s *astate, fr *aframe, v ssa.Value) AVal {
 	case *ssa.Phi:
 		for i, p := range fr.block.Preds {
 			if p == fr.pred {
+				np := make(map[*ssa.Phi]ssa.Value, len(fr.phiSrc)+1)
+				for k, v := range fr.phiSrc {
+					np[k] = v
+				}
+				np[x] = x.Edges[i]
+				fr.phiSrc = np
 				return ex.val(s, fr, x.Edges[i])
 			}
 		}
@@ -1864,6 +1896,18 @@ func (ex *Exec) binop(s *astate, fr *aframe, x *ssa.BinOp) AVal {
 		if x.Op == token.ADD {
 			return AVal{K: AStr, Path: "concat", Lo: -1, Len: -1}
 		}
+		// s == "" / s != "" already decided on this path
+		if (x.Op == token.EQL || x.Op == token.NEQ) && l.K == AStr && r.K == AStr && l.IsConst != r.IsConst {
+			k, v := l, r
+			if r.IsConst {
+				k, v = r, l
+			}
+			if k.Const == "" && v.Path != "" {
+				if empty, known := s.nils["empty:"+v.Path]; known {
+					return boolVal(empty == (x.Op == token.EQL))
+				}
+			}
+		}
 		return AVal{K: AInt, Bits: mixVec(1)}
 	}
 	// nil comparisons
@@ -1877,6 +1921,17 @@ func (ex *Exec) binop(s *astate, fr *aframe, x *ssa.BinOp) AVal {
 		}
 		if (isNil(l) && known(r)) || (isNil(r) && known(l)) {
 			return boolVal(x.Op == token.NEQ)
+		}
+		if isNil(l) != isNil(r) {
+			v := l
+			if isNil(l) {
+				v = r
+			}
+			if v.Path != "" {
+				if wasNil, decided := s.nils[v.Path]; decided {
+					return boolVal(wasNil == (x.Op == token.EQL))
+				}
+			}
 		}
 		if l.K != AInt || r.K != AInt {
 			return AVal{K: AInt, Bits: mixVec(1)}
